@@ -3,6 +3,7 @@ package engine
 import (
 	"fmt"
 	"go/types"
+	"regexp"
 	"strings"
 
 	"golang.org/x/tools/go/ssa"
@@ -187,6 +188,13 @@ func (ex *Exec) ifaceContract(static types.Type, m *types.Func) (*Contract, stri
 
 // applyContract replaces a call by the callee's contract.
 func (ex *Exec) applyContract(st *State, fr *Frame, x *ssa.Call, c *Contract, key string, names []string, args []Val, results *types.Tuple, pkg *ssa.Package) bool {
+	for _, g := range c.Ghosts {
+		for _, r := range c.Requires {
+			if regexp.MustCompile(`\b` + regexp.QuoteMeta(g[0]) + `\b`).MatchString(r.Src) {
+				ex.reject("contract of %s constrains ghost %s in a precondition and cannot be applied at a call site", key, g[0])
+			}
+		}
+	}
 	short := shortFn(key)
 	ex.siteCnt[short]++
 	site := fmt.Sprintf("%s#%d", short, ex.callOrdinal(fr, x))
@@ -202,6 +210,16 @@ func (ex *Exec) applyContract(st *State, fr *Frame, x *ssa.Call, c *Contract, ke
 	var tpkg *types.Package
 	if pkg != nil {
 		tpkg = pkg.Pkg
+	}
+	// ghosts that only occur in postconditions are universally quantified there: any fresh value is a sound instance
+	for _, g := range c.Ghosts {
+		if gt := basicTypeByName(g[1]); gt != nil {
+			save := ex.Inputs
+			ex.resultMode = true
+			vars[g[0]] = ex.symVal(st, fmt.Sprintf("gh_%s_%d", g[0], ex.nfreshNext()), gt, 1)
+			ex.resultMode = false
+			ex.Inputs = save
+		}
 	}
 	old := st.snapshot()
 	env := &SpecEnv{ex: ex, st: st, old: old, vars: vars, pkg: tpkg, contract: c, assuming: true}
